@@ -212,8 +212,8 @@ def run(ctx):
         small = gen.enum_cats(en_atoms, gen.SLASHES, 2) + gen.enum_cats(ja_atoms, gen.SLASHES[:2], 2)
         three = [c for c in gen.enum_cats(en_atoms[:6], gen.SLASHES[:2], 3) + gen.enum_cats(ja_atoms[:4], gen.SLASHES[:2], 3) if gen.size(c) == 3]
         ctx.stats['values_3_atoms_total'] = len(three)
-        vals = small + rng.sample(three, min(len(three), 700))
-        n_mixed, n_rand, n_inv = 60, 200, 120
+        vals = small + rng.sample(three, min(len(three), 330))
+        n_mixed, n_rand, n_inv = 40, 80, 90
     ctx.stats['values_enumerated'] = len(vals)
     both = en_atoms + ja_atoms
     for _ in range(n_mixed):      # the two feature systems mixed in one value
@@ -241,11 +241,11 @@ def run(ctx):
             seen.add(t); texts.append(t)
     for v in V:
         add_text(str(v))
-    for v in rng.sample(V, min(n, 80 if ctx.quick else 600)):
+    for v in rng.sample(V, min(n, 80 if ctx.quick else 220)):
         for t in bracket_variants(rng, v):
             add_text(t)
     for lang in ('en', 'en_rebank', 'ja'):
-        for s in rng.sample(gen.inventory(lang), 40 if ctx.quick else 150):
+        for s in rng.sample(gen.inventory(lang), 40 if ctx.quick else 100):
             add_text(s)
     for t in ['', ' ', 'S[]', 'S[dcl', '(S', 'S/', 'X', 'dcl', TRIPLE]:
         add_text(t)
